@@ -45,28 +45,35 @@ func configs(tier string) []*config {
 		return out
 	}
 	if tier == "thorough" {
-		out := []*config{
-			mk(4, 1, 1, 3, false), // tip-following, one reorg, <=3 deviations
-			mk(3, 1, 2, 1, false), // two reorgs, <=1 deviation
-			mk(4, 1, 2, 1, false), // two reorgs on a longer chain, <=1 deviation
-			mk(6, 2, 1, 2, false), // catch-up with 2 fetchers, one reorg, <=2 deviations
-			mk(6, 3, 1, 1, true),  // catch-up with 3 fetchers, new state backend
-			mk(5, 2, 0, 3, false), // catch-up with 2 fetchers, no reorg, <=3 deviations
-		}
-		for _, c := range out {
+		all := []byte{lStore, lReorg, lVerify, lFetch, lCheck}
+		two := []byte{lStore, lReorg}
+		th := func(c *config, holds []byte) *config {
 			c.variants = append(c.variants, vCorruptDiff)
-			c.holds = []byte{lStore, lReorg, lVerify, lFetch, lCheck}
+			c.holds = holds
+			return c
 		}
-		return out
+		// listener holds multiply the deviation-1 level by 2-4, so the deepest / widest configurations carry fewer classes
+		return []*config{
+			th(mk(4, 1, 1, 3, false), nil), // tip-following, one reorg, <=3 deviations, no listener holds
+			th(mk(4, 1, 1, 2, false), all), // tip-following, one reorg, <=2 deviations, holds on all five listener classes
+			th(mk(3, 1, 2, 1, false), two), // two reorgs, <=1 deviation, holds on store / reorg callbacks
+			th(mk(4, 1, 2, 0, false), nil), // two reorgs on a longer chain, every placement of both
+			th(mk(6, 2, 1, 2, false), nil), // catch-up with 2 fetchers, one reorg, <=2 deviations, no listener holds
+			th(mk(6, 2, 1, 1, false), all), // catch-up with 2 fetchers, one reorg, <=1 deviation, all five listener classes
+			th(mk(6, 3, 1, 1, true), all),  // catch-up with 3 fetchers, new state backend, all five listener classes
+			th(mk(5, 2, 0, 3, false), all), // catch-up with 2 fetchers, no reorg, <=3 deviations
+		}
 	}
 	return []*config{
 		mk(4, 1, 1, 1, false), // tip-following, one reorg, <=1 deviation
-		mk(3, 1, 1, 2, false), // one reorg, <=2 deviations
+		noHolds(mk(3, 1, 1, 2, false)), // one reorg, <=2 deviations (no listener holds: they triple this level-2 search)
 		mk(3, 1, 2, 0, false), // two reorgs, default answers, every placement of both
 		mk(6, 2, 1, 1, true),  // catch-up with 2 fetchers, one reorg, <=1 deviation, new state backend
 		mk(5, 2, 0, 2, false), // catch-up with 2 fetchers, no reorg, <=2 deviations (out-of-order answers, faults)
 	}
 }
+
+func noHolds(c *config) *config { c.holds = nil; return c }
 
 type cfgCount struct {
 	states, transitions, convRuns int64
@@ -85,7 +92,7 @@ func TestCheck(t *testing.T) {
 	if err != nil {
 		r.Infra("cannot start worker processes: %v", err)
 	}
-	r.SetBudget(ev.Pick(r, 140, 1620))
+	r.SetBudget(ev.Pick(r, 150, 1620))
 	trace := os.Getenv("VERIF_C06_TRACE") != ""
 
 	r.Set("rule", "deviation-bounded explicit-state search over the quiescent points of the real sync.Synchronizer in a testing/synctest bubble: "+
